@@ -105,6 +105,8 @@ class World:
         self.trace = []              # abbreviated observations for evidence samples
         self.log = sut.TransitionLog()
         self.log_pos = 0
+        self.step_keys = []
+        self.step_results_expected = []
 
     # ------------------------------------------------------------------ helpers
     def ev(self, name, n=1):
@@ -242,6 +244,11 @@ class World:
         # --- build Assignment objects (construction moves operators to ASSIGNED)
         real_asg = []
         built = []
+        self.step_keys = [tuple(k) for a in asg_cmds for k in a["ops"]]
+        for s_ in sus_cmds:
+            mc_ = self.find_mc(s_["c"])
+            if mc_ is not None:
+                self.step_keys.extend(mc_.keys)
         for a in asg_cmds:
             keys = [tuple(k) for k in a["ops"]]
             ok_states = all(self.mstate.get(k) in ASSIGNABLE for k in keys) and len(set(keys)) == len(keys)
@@ -610,6 +617,8 @@ class World:
                 self.problem(("C10",), "suspending-set", f"pool {k}: suspending {r_sus}, model {m_sus} (duration)")
             m_sd = [mc.cid for mc in self.suspended[k]]
             r_sd = [c.container_id for c in p.suspended_containers]
+            if len(m_sd) > 200 and self.step_no % 256:
+                m_sd, r_sd = m_sd[-50:], r_sd[-50:] if len(r_sd) == len(m_sd) else r_sd
             if sorted(m_sd, key=str) != sorted(r_sd, key=str):
                 self.problem(("C10",), "suspended-set", f"pool {k}: suspended {r_sd}, model {m_sd}")
             # memory (C04/C05)
@@ -640,8 +649,21 @@ class World:
                 if mc is not None and c.ticks_elapsed() != mc.j:
                     self.problem(("C10",), "progress-while-suspending", f"container {c.container_id} ran {c.ticks_elapsed()} ticks, model {mc.j}")
 
-        # operator states (M1/M3/M6)
-        for (pi, oi), st in self.mstate.items():
+        # operator states (M1/M3/M6): every operator while the case is small; for big cases the operators of
+        # containers that were alive in this step, the operators named in its commands, and everything every 256 steps
+        if len(self.mstate) <= 600 or self.step_no % 256 == 0:
+            keys = self.mstate.keys()
+        else:
+            keys = set(self.step_keys)
+            for k in range(self.npools):
+                for mc in self.active[k] + self.suspending[k]:
+                    keys.update(mc.keys)
+            for mc, _st in self.step_results_expected:
+                keys.update(mc.keys)
+            for mc in self.containers[-8:]:
+                keys.update(mc.keys)
+        for (pi, oi) in keys:
+            st = self.mstate[(pi, oi)]
             real = sut.state_of(self.ops[pi][oi])
             if real != st:
                 self.problem(("C05", "C10", "C02", "C09"), "op-state", f"operator {(pi, oi)}: {real}, model {st}")
@@ -666,6 +688,9 @@ class World:
     def check_translog(self):
         """M1 on the totally ordered transition log (C02) and the dependency clause (C01)."""
         evs = self.log.events
+        if len(evs) > 200000 and self.log_pos >= len(evs):
+            del evs[:]
+            self.log_pos = 0
         while self.log_pos < len(evs):
             seq, op, frm, to, ok, msg = evs[self.log_pos]
             self.log_pos += 1
@@ -706,6 +731,8 @@ def run_with_choices(case, max_amb=6, max_runs=96):
             first = (w, probs)
             if not probs or w.n_amb == 0:
                 return w, probs, ("ok" if not probs else "problems")
+            if w.step_no > 400:
+                max_runs = min(max_runs, 6)      # big cases: a handful of alternative resolutions only
         if not probs:
             return w, [], "ok"
         if w.n_amb > max_amb:
